@@ -41,6 +41,9 @@ META = {
 OPTS = ["-f", "-t", "-fj", "-fjson", "-f=yaml", "-tm", "-ttoml", "-t=y", "-ty", "-fx", "-t=", "-f=", "-q", "-hq", "-qh", "-Vf", "-ft",
         "--bogus", "--help", "--help=x", "--version", "--version=1", "--f", "--from=json", "-h", "-V", "--", "-", "-=", "-f-", "-tj-"]
 VALS = ["j", "json", "y", "yaml", "m", "msgpack", "t", "toml", "JSON", "x", ""]
+# names that are nearly format names: the extensions that are not names, other letter case, prefixes, plurals
+NEAR = ["yml", "YML", "Yml", "yam", "ya", "Yaml", "YAML", "jso", "js", "jsonl", "Json", "J", "Y", "M", "T", "msgpac", "mp", "mpk", "messagepack",
+        "MsgPack", "tom", "tml", "Toml", "to", " json", "json ", "j ", "yaml\n", "0", "-"]
 FILES = ["a.json", "b.yaml", "c.toml", "d.msgpack", "missing.json", "dir.json", "bad.json", "und.txt", "nullkey.yaml", "two.json", "arr.json"]
 QUICK_VOCAB = ["-f", "-t", "-fj", "-f=yaml", "-tm", "-ty", "-ttoml", "-fx", "-q", "-hq", "--bogus", "--help", "--help=x", "--version",
                "-h", "-V", "--", "-", "j", "yaml", "x", "a.json", "b.yaml", "missing.json", "dir.json", "bad.json", "und.txt",
@@ -81,6 +84,13 @@ def run(outcome, tier, seed):
             elif r < 0.2:
                 mode = "tty"
             cases.append(cli.Case(v, STDIN, mode))
+        for name in NEAR:
+            for argv in (["-f", name, "a.json"], ["-t", name, "a.json"], ["-f" + name, "a.json"], ["-t" + name], ["-t=" + name, "a.json"], ["a.json", "-f", name]):
+                cases.append(cli.Case(argv, STDIN, "pipe"))
+        # options after operands count for all operands
+        for argv in (["a.json", "-f", "yaml"], ["-", "-f", "msgpack"], ["b.yaml", "-f", "json", "b.yaml"], ["a.json", "-t", "yaml", "-f", "json"],
+                     ["c.toml", "-fy"], ["und.txt", "-f", "json"], ["a.json", "b.yaml", "-f", "yaml", "-t", "msgpack"], ["-", "-ty"]):
+            cases.append(cli.Case(argv, STDIN, "pipe"))
         # the terminal guard for every target
         for to in ("json", "yaml", "toml", "msgpack", "m", "j"):
             cases.append(cli.Case(["-t", to, "a.json"], None, "tty"))
